@@ -113,11 +113,13 @@ def rand_json(rng, depth=0):
     if depth > 2 or r < 0.5:
         return rng.choice([rand_text(rng), rand_num(rng), True, False, None, -3, "build-7"])
     if r < 0.8:
-        return {rng.choice(["a", "b", "build_id", "env", "x.y", "Key", ""]): rand_json(rng, depth + 1) for _ in range(rng.randint(0, 3))}
+        # keys a path-syntax lookup (JSON pointer, index into arrays) would read differently from the plain walk over dot-separated object keys
+        return {rng.choice(["a", "b", "build_id", "env", "x.y", "Key", "", "a", "b", "ci/stage", "a/b", "a~1b", "a~0b", "~", "/", "0", "1", "tags", "-"]): rand_json(rng, depth + 1) for _ in range(rng.randint(0, 3))}
     return [rand_json(rng, depth + 1) for _ in range(rng.randint(0, 2))]
 
 
-CUSTOM_NAMES = ["a", "b", "a.b", "build_id", "env", "a.a", "x.y", "Key", "missing", "a.b.c", ""]
+CUSTOM_NAMES = ["a", "b", "a.b", "build_id", "env", "a.a", "x.y", "Key", "missing", "a.b.c", "",
+                "ci/stage", "a/b", "a~1b", "a~0b", "a.a~1b", "~", "/", "0", "1", "a.0", "a.1", "tags", "tags.0", "b.0", "a.-", "b.ci/stage", "a..b", ".a", "a."]
 
 
 def rand_vars(rng, sparse=None):
@@ -129,6 +131,10 @@ def rand_vars(rng, sparse=None):
     cust = rand_json(rng)
     if not isinstance(cust, dict):
         cust = {"a": cust, "b": {"c": rand_json(rng, 2), "a": 5}, "build_id": rand_text(rng)}
+    if rng.random() < 0.3:
+        cust = dict(cust)
+        cust.update(rng.choice([{"ci/stage": rand_text(rng)}, {"a~1b": rand_num(rng)}, {"tags": [rand_text(rng), rand_num(rng)]}, {"a": [rand_text(rng), {"b": rand_num(rng)}]},
+                                {"0": rand_text(rng)}, {"a": {"0": rand_text(rng), "a/b": rand_num(rng), "a~0b": "t"}}, {"/": "slash", "~": "tilde", "": {"": "empty"}}]))
     return {"major": o(rand_num, 0.9), "minor": o(rand_num, 0.85), "patch": o(rand_num, 0.85), "epoch": o(rand_num, 0.3), "pre": pre,
             "post": o(rand_num, 0.4), "dev": o(rand_num, 0.3), "distance": o(rand_num, 0.5),
             "dirty": rng.choice([None, True, False]), "bumped_branch": o(rand_text, 0.6), "bumped_hash": o(rand_text, 0.6),
